@@ -404,9 +404,23 @@ def probe_hop_batch(inp: Dict[str, Any]) -> Dict[str, Any]:
             return out
         dyn._compute_NACR_for_hop = nacr
         dyn._recompute_active_force = lambda molecule: None
+        amp0 = dyn._amp_phase.numpy().copy()
         dyn._after_electronic_update(mol, torch.tensor(E), step=0)
         v1 = mol.velocities.numpy()
         new_active = dyn._active_states.numpy()
+        amp1 = dyn._amp_phase.numpy()
+        for m in range(nmol):
+            pop = amp1[m][:, 0] ** 2 + amp1[m][:, 1] ** 2
+            if not hops[m]:
+                if not np.array_equal(amp0[m], amp1[m]):
+                    bad.append(f"trial {trial}: amplitudes of the non-hopping trajectory {m} changed"); kinds.add("hop_isolation")
+            elif dyn._decohere_on_hop:
+                onehot = np.zeros(n)
+                onehot[new_active[m]] = 1.0
+                if np.abs(pop - onehot).max() > 1e-12:
+                    bad.append(f"trial {trial}: decoherence on: after the hop attempt the populations of trajectory {m} are {pop.round(4).tolist()}, not the active state {int(new_active[m])}"); kinds.add("decoherence")
+            elif not np.array_equal(amp0[m], amp1[m]):
+                bad.append(f"trial {trial}: decoherence off: the hop attempt changed the amplitudes of trajectory {m}"); kinds.add("decoherence")
         for m in range(nmol):
             ke0 = float((0.5 * mass[m] * v0[m] ** 2).sum()) * KES
             ke1 = float((0.5 * mass[m] * v1[m] ** 2).sum()) * KES
